@@ -15,12 +15,24 @@ The expected behaviour of a turn is computed from the property statement alone (
 the rails up to and including the first rejecting one run once each, in order, each seeing the text as rewritten by the
 rails before it; nothing of the runtimes is re-implemented.
 
+A third observer, an action placed inside a dialog flow (`execute c01_probe` / `await C01ProbeAction`), marks the
+"dialog step" of a turn: it must come after the rails, must not run on a rejected turn and (Colang 1.0) must find the
+rewritten text in `$user_message`.
+
+Known genuine findings on the unchanged tree (kept as failing oracles, see the report to the lead):
+  * record "input rails gate after consecutive rejections (Colang 1.0)": 3 rails, reject by InputRailException, conversation
+    chained through `state=`: after two rejected turns the next (accepted) message skips the third rail and goes on to the LLM.
+  * record "rewritten message vs. echoed rail action results ...": with dialog rails the prompt's history section echoes the
+    return value of every non-system action; a rail action that returns the text unchanged, followed by a rail that rewrites
+    it, puts the original text into the LLM prompt.
+
 Scenario families
   v1 (Colang 1.0): configuration = (ordered list of 0-3 input rails, flow style per rail, reject style refusal /
       InputRailException, mode general / passthrough / dialog rails / dialog rails single-call / passthrough+dialog)
       x transport (messages with fresh dicts, messages with shared dicts, `state=`, completion-style `prompt=`,
       messages with default generation options, messages with dialog+output rails switched off)
-      x multi-turn verdict scripts (every turn position is checked).
+      x multi-turn verdict scripts (every turn position is checked); plus a deterministic family of rejection runs
+      (accept, k rejections in a row by the first / last rail, accept, all-rewrite).
   v2 (Colang 2.x): `import guardrails`, `flow input rails $input_text` calling 1-3 sub-rails (or the action inline),
       with `llm continuation` or with plain flows only, multi-turn through `state=`, texts drawn from a small pool with
       forced repetitions (the same accepted / rejected text on consecutive turns), several user messages in one request.
@@ -308,7 +320,11 @@ def _v1_config(order, styles, reject, mode):
         co.append('define user express greeting\n  "hello"\n  "hi there"\n\n'
                   'define bot express greeting\n  "Hello there!"\n\n'
                   'define flow greeting\n  user express greeting\n  execute c01_probe\n  bot express greeting\n')
-    for i in sorted(set(order) | {0}):
+    if not order:
+        co.append('define bot refuse r0\n  "Refused by input rail r0."\n')
+    # only the configured rails are defined: any other flow starting with `execute c01_rail` would be an ordinary dialog flow
+    # that Colang 1.0 advances whenever that action runs
+    for i in sorted(order):
         rej = ("bot refuse r%d" % i) if reject == "refuse" else \
             ('create event InputRailException(message="Blocked by input rail r%d")' % i)
         co.append('define bot refuse r%d\n  "Refused by input rail r%d."\n' % (i, i))
@@ -592,6 +608,42 @@ def _v1_checks(env, rng, tier):
     yield rec_echo.record()
 
 
+def _v1_rejection_runs(env, rng, tier):
+    """deterministic family: runs of consecutive rejections (by the first / the last rail) followed by accepted messages - the
+    turn positions right after a refusal are where left-overs of the aborted turn could let a message slip through"""
+    thorough = tier == "thorough"
+    rec = _Rec("input rails gate after consecutive rejections (Colang 1.0)", FLOWS_CO, "")
+    order = (0, 1, 2)
+    styles = {0: "A", 1: "B", 2: "A"}
+    nconf = 0
+    for mode in (_V1_MODES if thorough else ["general", "dialog"]):
+        for reject in ("refuse", "exception"):
+            cfg = dict(order=order, styles=styles, reject=reject, mode=mode)
+            try:
+                yaml, co = _v1_config(order, styles, reject, mode)
+                app = env.rails(yaml, co, env.actions_v1)
+            except Exception as ex:
+                rec.n += 1
+                rec.fail("the configuration loads", dict(colang="1.0", mode=mode, rails=list(order), reject=reject),
+                         "raised %s: %s" % (type(ex).__name__, _short(str(ex), 300)))
+                continue
+            nconf += 1
+            for transport in (["state", "messages_fresh", "messages_shared", "messages_default_options"] if thorough
+                              else ["state", "messages_fresh", "messages_default_options"]):
+                for rejecting in (order[0], order[-1]):
+                    for run in ((1, 2, 3) if thorough else (2,)):
+                        vectors = [{}] + [{rejecting: "J"}] * run + [{}, {i: "W" for i in order}]
+                        turns = []
+                        for k, v in enumerate(vectors):
+                            sec = _secret(rng, k)
+                            turns.append(dict(text=_TEMPLATES[0] % sec, secret=sec, verdicts=dict(v), kind="unknown" if k % 2 else "known"))
+                        _v1_conversation(env, rec, app, cfg, transport, turns)
+    rec.bound = ("%d configurations (3 rails r0/A r1/B r2/A; modes %s; reject by refusal or InputRailException) x transports state / messages / "
+                 "messages with default options x rejecting rail first / last x conversations accept, %s rejections in a row, accept, "
+                 "all-rewrite" % (nconf, "all" if thorough else "general, dialog", "1-3" if thorough else "2"))
+    yield rec.record()
+
+
 # ---------------------------------------------------------------------------------------------
 # Colang 2.x (guardrails library)
 # ---------------------------------------------------------------------------------------------
@@ -814,9 +866,18 @@ def _v2_checks(env, rng, tier):
 def native_checks(rng, tier):
     env = _Env()
     try:
+        last = []
         for rec in _v1_checks(env, rng, tier):
-            yield rec
+            # the records with known findings go to the end of the report
+            if rec["function"].startswith("rewritten message vs. echoed"):
+                last.append(rec)
+            else:
+                yield rec
         for rec in _v2_checks(env, rng, tier):
+            yield rec
+        for rec in _v1_rejection_runs(env, rng, tier):
+            yield rec
+        for rec in last:
             yield rec
     finally:
         env.close()
